@@ -113,6 +113,9 @@ type c14HistEntry struct {
 	live bool          // holds a (non-nil) configuration and was not removed since
 	snap []c14Group    // content as of the call that installed it
 	obj  *SubnetConfig // the object that was handed in (the caller may change it later)
+	// the caller (the harness, through a "mutate" operation - nobody else) changed obj after this
+	// entry was installed; only then is the object's current content an acceptable reading
+	callerChanged bool
 }
 
 func c14HistFresh(m map[uint]*c14HistEntry, current bool) *PhantomIPSelector {
@@ -122,7 +125,7 @@ func c14HistFresh(m map[uint]*c14HistEntry, current bool) *PhantomIPSelector {
 			continue
 		}
 		groups := e.snap
-		if current && e.obj != nil {
+		if current && e.obj != nil && e.callerChanged {
 			groups = c14HistSnap(e.obj)
 		}
 		sel.Networks[g] = &SubnetConfig{WeightedSubnets: c14HistPB(groups)}
@@ -330,6 +333,7 @@ func c14HistRun(dir string, n int64, c c14HistCase, st *c14HistStats) (string, s
 			objs[op.Obj].WeightedSubnets = c14HistPB(c14HistTemplate(op.Tpl))
 			for _, e := range model {
 				if e.live && e.obj == objs[op.Obj] {
+					e.callerChanged = true
 					st.classes["caller-changed-installed-object"] = true
 				}
 			}
